@@ -15,13 +15,16 @@ for d in sorted(glob.glob(os.path.join(S, "incoming", "*"))):
     out = os.path.join(S, mid)
     shutil.rmtree(out, ignore_errors=True)
     if not ok:
-        dropped.append((mid, meta.get("summary", "").split(":")[0][:60]))
+        dropped.append((mid, meta.get("summary", "").split(":")[0][:60], "applies=%s builds=%s demo with patch=%s, without=%s, baseline failures with patch=%s" % (
+            c.get("applies"), c.get("builds"), c.get("demo_with_patch"), c.get("demo_without_patch"), c.get("baseline_failures_with_patch"))))
         continue
     os.makedirs(out)
     shutil.copy(os.path.join(d, "patch.diff"), out)
     shutil.copy(os.path.join(d, "demo_test.go"), out)
     mm = re.search(r"cp \S*demo_test\.go (\S+) && (.*?go test.*?\./\S+)", meta.get("demo_run", ""))
     dest, cmd = (mm.group(1), re.sub(r"\(.*$", "", mm.group(2)).strip()) if mm else ("", "")
+    dest = re.sub(r"^/tmp/wt2?-C\d+/", "", dest)
+    cmd = re.sub(r"cd /tmp/\S+ && ", "", cmd)
     new = {
         "id": mid, "property": meta.get("property", mid.split("-")[0]),
         "summary": meta.get("summary", ""), "needs": meta.get("needs", ""),
@@ -53,7 +56,7 @@ with open(os.path.join(S, "README.md"), "w") as f:
     for r in rows:
         f.write("| %s | %s | %s | %s | %s |\n" % r)
     f.write("\nNot kept (could not be confirmed on the current tree):\n\n")
-    for mid, where in dropped:
-        f.write("* %s (%s): since fix 60b8034 `DecryptKey` itself compares the decrypted key with the file's address, so removing the same comparison from `GetKey` "
-                "changes nothing observable; its demonstration passes with and without the patch.\n" % (mid, where))
+    why = {"C20-m2": "since fix 60b8034 `DecryptKey` itself compares the decrypted key with the file's address, so removing the same comparison from `GetKey` changes nothing observable"}
+    for mid, where, what in dropped:
+        f.write("* %s (%s): %s. %s\n" % (mid, where, what, why.get(mid, "")))
 print(len(rows), "seeded dirs written;", sum(1 for r in rows if r[2] == "yes"), "confirmed,", sum(1 for r in rows if r[3] == "yes"), "caught")
